@@ -67,6 +67,12 @@ def fixed_histories():
          {"m": "B", "do": "restore", "targets": [0]}],
     ]
     out = [(ws, targets, h, "fixed-%d" % i) for i, h in enumerate(hs)]
+    # a flat directory (no child directories): two of its blobs cannot be fetched on B (F-errchan: the restore must fail, not hang)
+    wsf = D(("p", D(("flat", D(("a", F("1")), ("b", F("2", True)), ("c", F("3")))))))
+    tf = [{"pkg": "p", "name": "t0", "key": "kF", "outputs": [["dir", "flat"]]}]
+    out.append((wsf, tf, [{"m": "A", "do": "build", "targets": [0]},
+                          {"m": "B", "do": "restore", "targets": [0], "faults": [{"op": "get", "ns": "cas", "nth": 2, "kind": "err"}, {"op": "get", "ns": "cas", "nth": 3, "kind": "err-mid"}]},
+                          {"m": "B", "do": "restore", "targets": [0]}], "fixed-flat-get-faults"))
     # boundary sizes / fan-out workload of C07 (70 000-byte file, 32768/32769/65537-byte files, 130 files in one directory)
     from . import c07
     ws2, t2 = c07.fixed_workloads()[1]
@@ -194,7 +200,9 @@ def run(ctx):
             for r in st["results"]:
                 key = st["do"] + ":" + r["outcome"]
                 stats["outcomes"][key] = stats["outcomes"].get(key, 0) + 1
-                if r["outcome"] == "hang":
+                if r["outcome"] == "hang" and not S.confirm_hang(ctx, req, lambda o: any(rr.get("outcome") == "hang" for ss in o.get("steps", []) for rr in ss["results"])):
+                    stats["unconfirmed_stalls"] = stats.get("unconfirmed_stalls", 0) + 1
+                elif r["outcome"] == "hang":
                     t = [t for t in targets if t["name"] == r["target"]][0]
                     in_dir_restore = st["do"] == "restore" and any(o[0] == "dir" for o in t["outputs"])
                     ctx.violation("a cache operation through the remote wrapper hangs" + (" (restore of a directory output whose blob cannot be fetched)" if in_dir_restore else ""),
@@ -243,7 +251,7 @@ def run(ctx):
     ctx.coverage["evaluations"] = len(reqs)
     ctx.coverage["traces_validated_against_impl"] = len(replays)
     ctx.coverage["distinct_nontrivial"] = len(distinct)
-    ctx.coverage["rule"] = ("8 targeted histories (incl. the Lean witness of F-remote-skip and remote Set failing after the local tier stored) + generated histories over "
+    ctx.coverage["rule"] = ("9 targeted histories (incl. the Lean witness of F-remote-skip and remote Set failing after the local tier stored) + generated histories over "
                             "machines A,B,C: build with remote cache, build without remote cache (local-only blobs), restore into an emptied workspace; remote faults "
                             "scripted per step on get/set/exists (err, err-mid, err-late = read everything then fail, err-after = stored then fail); workloads of 1-3 "
                             "targets sharing contents; non-trivial = distinct history in which some machine restored outputs successfully and the remote stayed closed")
